@@ -991,6 +991,9 @@ theorem rootLoop_nodes (ts : List Tok) : AllNodes (rootLoop ts).nodes := by
 /-- the children of the root the parser returns are nodes — for EVERY text -/
 theorem parse_allNodes (s : Str) : AllNodes (parse s).tree.children := rootLoop_nodes _
 
+theorem terminatePara_isNode (p : DNode) : (terminatePara p).isNode = p.isNode := by
+  cases p <;> rfl
+
 theorem built_allNodes (ps : List DNode) (h : AllNodes ps) : AllNodes (docOfParas ps) := by
   induction ps with
   | nil => simp [docOfParas, AllNodes]
@@ -1002,7 +1005,7 @@ theorem built_allNodes (ps : List DNode) (h : AllNodes ps) : AllNodes (docOfPara
       intro c hc
       simp only [docOfParas, List.mem_cons] at hc
       rcases hc with rfl | rfl | hc
-      · exact h _ (by simp)
+      · rw [terminatePara_isNode]; exact h _ (by simp)
       · rfl
       · exact this c hc
 
